@@ -180,3 +180,61 @@ fn verif_loom_writer_vs_task() {
     });
     std::println!("VERIF_LOOM scenario={raw_out} executions={}", states.load(core::sync::atomic::Ordering::Relaxed));
 }
+
+/// Writer ‖ writer ‖ connection task: `poll_obtain_write_permission` takes `&self`, so two tasks
+/// may race for credit on one stream. (Only one of them can be registered with the single
+/// `AtomicWaker`, so the wake-up oracle does not apply here; conservation does.)
+///
+/// Scenario `VERIF_LOOM_SCENARIO=credit,w2,ops`.
+///  (ii)  conservation: final credit = initial + grants - permissions obtained by both;
+///  (iii) never more permissions than credit (no underflow / wrap of the counter).
+#[test]
+fn verif_loom_two_writers() {
+    let (credit, _polls, ops, raw) = scenario();
+    let states = alloc::sync::Arc::new(core::sync::atomic::AtomicU64::new(0));
+    let st2 = states.clone();
+    let raw_out = raw.clone();
+    let mut b = loom::model::Builder::new();
+    if let Ok(p) = std::env::var("VERIF_LOOM_PREEMPTION_BOUND") {
+        b.preemption_bound = p.parse().ok();
+    }
+    if let Ok(f) = std::env::var("VERIF_LOOM_CHECKPOINT_FILE") {
+        b.checkpoint_file = Some(f.into());
+        b.checkpoint_interval = 1;
+    }
+    b.check(move || {
+        st2.fetch_add(1, core::sync::atomic::Ordering::Relaxed);
+        let (s, d) = mk(credit);
+        let s = alloc::sync::Arc::new(s);
+        let ops2 = ops.clone();
+        let t = loom::thread::spawn(move || {
+            for op in ops2 {
+                match op {
+                    Op::Ack(n) => d.acknowledge(n),
+                    Op::Close => {
+                        d.disallow_write();
+                    }
+                }
+            }
+            d
+        });
+        let poll_once = |s: &MuxStream| -> u32 {
+            let cw = alloc::sync::Arc::new(CountWaker(loom::sync::atomic::AtomicUsize::new(0)));
+            let waker = core::task::Waker::from(cw);
+            let cx = Context::from_waker(&waker);
+            matches!(s.poll_obtain_write_permission(&cx), Poll::Ready(Some(()))) as u32
+        };
+        let s2 = s.clone();
+        let w2 = loom::thread::spawn(move || poll_once(&s2));
+        let got1 = poll_once(&s);
+        let got2 = w2.join().unwrap();
+        let d = t.join().unwrap();
+        let got = got1 + got2;
+        let grants: u32 = ops.iter().map(|o| if let Op::Ack(n) = o { *n } else { 0 }).sum();
+        let left = s.psh_send_remaining.load(Ordering::SeqCst);
+        assert!(got <= credit + grants, "[{raw}] CREDIT: two writers obtained {got} permissions with only {credit} + {grants} units of credit");
+        assert_eq!(left, credit + grants - got, "[{raw}] CONSERVATION: final credit {left}, expected {credit} + {grants} - {got}");
+        drop(d);
+    });
+    std::println!("VERIF_LOOM scenario={raw_out} executions={}", states.load(core::sync::atomic::Ordering::Relaxed));
+}
